@@ -31,8 +31,9 @@ TraceLog == ndJsonDeserialize("trace.ndjson")
 VARIABLES l, haveB, built, haveR, first, viol, fired
 vars == <<l, haveB, built, haveR, first, viol, fired>>
 
-Fields == {"root", "vroot", "sroot", "rcpt", "bloom", "gas", "logs", "stat"}
-StoredFields == {"rcpt", "logs", "stat"}
+\* lidx: the transaction index every log carries (stored with the receipts, not committed to by the receipt trie)
+Fields == {"root", "vroot", "sroot", "rcpt", "bloom", "gas", "logs", "stat", "lidx"}
+StoredFields == {"rcpt", "logs", "stat", "lidx"}
 DiffOn(a, b, fs) == { f \in fs : a[f] # b[f] }
 
 \* the builder's local list accused more validators about the parent round (nev0) than header.SlashData lists (nslash)
@@ -40,7 +41,30 @@ Unlisted(b) == (IF b.nev0 > b.nslash THEN {"unlisted_evidence"} ELSE {})
                \* the builder's state object reported a database error (a trie update failed) while the roots were computed
                \cup (IF b.dberr # "" THEN {b.dberr} ELSE {})
 
-Zero == [Deterministic |-> 0, BuilderAccepted |-> 0, ImportReproduces |-> 0, Aborted |-> 0, PeriodEnds |-> 0, Slashed |-> 0]
+\* ---------------------------------------------------------------- blocks assembled by the real miner (Built.miner)
+\*  MinerIncludesOnlyExecutable  "a transaction the miner dropped as failed leaves no trace in the block's state" at block
+\*  level: what the block contains was offered by the pool; every account's nonce advanced by exactly the number of its
+\*  included transactions and these carry the consecutive nonces from the parent state's nonce on; the block holds one
+\*  receipt per included transaction plus the staking module's; the header's gas used is the sum of the receipts' and
+\*  within the limit; the coinbase is the proposer the engine named.  (That the STATE shows no trace of a dropped
+\*  transaction is ImportReproduces: the import executor runs the included transactions only.)
+IsMiner(e)    == "miner" \in DOMAIN e
+Ids(q)        == { q[i].id : i \in DOMAIN q }
+ValOfNV(q, a) == LET S == { i \in DOMAIN q : q[i].a = a } IN IF S = {} THEN 0 ELSE q[CHOOSE i \in S : TRUE].v
+Senders(e)    == { e.included[i].a : i \in DOMAIN e.included } \cup { e.nb[i].a : i \in DOMAIN e.nb }
+IdxOf(e, a)   == { i \in DOMAIN e.included : e.included[i].a = a }
+\* the k-th included transaction of a (in block order) has nonce nb[a] + k - 1
+NonceOrder(e, a) == \A i \in IdxOf(e, a) :
+                       e.included[i].n = ValOfNV(e.nb, a) + Cardinality({ j \in IdxOf(e, a) : j < i })
+MinerBad(e) == (IF Ids(e.included) \subseteq Ids(e.offered) THEN {} ELSE {"not_offered"})
+               \cup (IF \A a \in Senders(e) : ValOfNV(e.na, a) = ValOfNV(e.nb, a) + Cardinality(IdxOf(e, a)) THEN {} ELSE {"nonce_trace"})
+               \cup (IF \A a \in Senders(e) : NonceOrder(e, a) THEN {} ELSE {"nonce_order"})
+               \cup (IF e.nrcpt = e.ntx + 1 THEN {} ELSE {"receipts"})
+               \cup (IF e.gas = e.sumgas /\ e.gas <= e.limit THEN {} ELSE {"gas_sum"})
+               \cup (IF e.cbok THEN {} ELSE {"coinbase"})
+
+Zero == [Deterministic |-> 0, BuilderAccepted |-> 0, ImportReproduces |-> 0, Aborted |-> 0, PeriodEnds |-> 0, Slashed |-> 0,
+         MinerIncludesOnlyExecutable |-> 0, MinerDropped |-> 0, MinerRejected |-> 0]
 Init == l = 1 /\ haveB = FALSE /\ built = 0 /\ haveR = FALSE /\ first = 0 /\ viol = {} /\ fired = Zero
 
 Step ==
@@ -52,8 +76,14 @@ Step ==
               /\ haveB' = FALSE /\ built' = 0 /\ haveR' = FALSE /\ first' = 0 /\ UNCHANGED viol
               /\ fired' = [fired EXCEPT !.Aborted = @ + 1]
         [] e.ev = "Built" ->
-              /\ haveB' = TRUE /\ built' = e /\ haveR' = FALSE /\ first' = 0 /\ UNCHANGED viol
-              /\ fired' = [fired EXCEPT !.PeriodEnds = @ + (IF e.pe THEN 1 ELSE 0), !.Slashed = @ + (IF e.nslash > 0 THEN 1 ELSE 0)]
+              /\ haveB' = TRUE /\ built' = e /\ haveR' = FALSE /\ first' = 0
+              /\ viol' = viol \cup (IF IsMiner(e) /\ MinerBad(e) # {}
+                                    THEN { <<"MinerIncludesOnlyExecutable", MinerBad(e) \cup Unlisted(e), l>> } ELSE {})
+              /\ fired' = [fired EXCEPT !.PeriodEnds = @ + (IF e.pe THEN 1 ELSE 0), !.Slashed = @ + (IF e.nslash > 0 THEN 1 ELSE 0),
+                                        !.MinerIncludesOnlyExecutable = @ + (IF IsMiner(e) THEN 1 ELSE 0),
+                                        \* offered by the pool and not included: the miner dropped it
+                                        !.MinerDropped = @ + (IF IsMiner(e) THEN Cardinality(Ids(e.offered) \ Ids(e.included)) ELSE 0),
+                                        !.MinerRejected = @ + (IF IsMiner(e) THEN Len(e.rejected) ELSE 0)]
         [] e.ev = "Rerun" /\ haveB ->
               LET det == IF haveR THEN DiffOn(e, first, Fields \cup {"err"}) ELSE {}
                   rep == IF e.err # "" THEN {"error", e.errc} ELSE DiffOn(e, built, Fields) IN
